@@ -22,6 +22,8 @@ class SeqCheck(Check):
     def nontrivial_key(self, op, line):
         w = op.split()
         r = line.split(" ")
+        if r and r[0].startswith("allocs="):
+            r = r[1:] or [""]
         return "%s:%s:%s" % (w[0], r[0], r[1] if r[0] in ("false", "null") and len(r) > 1 else "")
 
     def classify(self, op, detail):
